@@ -187,6 +187,9 @@ func decideSite(p *core.Program, info *types.Info, fd *ast.FuncDecl, fobj *types
 	vars := map[types.Object]*idxVarInfo{}
 	var unknown []string
 	lenKeys := map[string]bool{baseKey: true}
+	defOf := map[types.Object]ast.Expr{}   // locals that abbreviate an expression over lengths
+	callVars := map[string]*types.Var{}    // anonymous variables for strings.Index-style calls used in place
+	described0 := map[types.Object]bool{}
 	var scan func(e ast.Expr)
 	scan = func(e ast.Expr) {
 		e = astx.StripConv(info, astx.Unparen(e))
@@ -205,8 +208,34 @@ func decideSite(p *core.Program, info *types.Info, fd *ast.FuncDecl, fobj *types
 				lenKeys[astx.CanonKey(info, astx.Unparen(x.Args[0]))] = true
 				return
 			}
+			// strings.Index/LastIndex(s, …) used in place: an anonymous variable with the documented range
+			if len(x.Args) == 2 {
+				callee := astx.Callee(info, x)
+				for _, fn := range []string{"Index", "LastIndex", "IndexByte", "LastIndexByte", "IndexRune", "IndexAny", "LastIndexAny"} {
+					if astx.IsPkgFunc(callee, "strings", fn) || astx.IsPkgFunc(callee, "bytes", fn) {
+						k := astx.CanonKey(info, x)
+						v := callVars[k]
+						if v == nil {
+							v = types.NewVar(x.Pos(), nil, "index#"+fmt.Sprint(len(callVars)+1), types.Typ[types.Int])
+							callVars[k] = v
+						}
+						if vars[v] == nil {
+							vars[v] = &idxVarInfo{obj: v, indexOf: x.Args[0], why: "result of strings." + fn + " on " + types.ExprString(x.Args[0])}
+							described0[v] = true
+							lenKeys[astx.CanonKey(info, astx.Unparen(x.Args[0]))] = true
+						}
+						return
+					}
+				}
+			}
 		case *ast.Ident:
 			if v, ok := astx.ObjOf(info, x).(*types.Var); ok && !v.IsField() {
+				// a local defined once as arithmetic over lengths and constants stands for that expression
+				if def := soleDefinition(info, fd.Body, v); def != nil && isLenArith(info, def) {
+					defOf[v] = def
+					scan(def)
+					return
+				}
 				if vars[v] == nil {
 					vars[v] = &idxVarInfo{obj: v}
 				}
@@ -230,6 +259,9 @@ func decideSite(p *core.Program, info *types.Info, fd *ast.FuncDecl, fobj *types
 	// invariants of each variable
 	lenAlias := map[string]string{} // len key -> len key it equals
 	described := map[types.Object]bool{}
+	for o := range described0 {
+		described[o] = true
+	}
 	for round := 0; round < 3; round++ {
 		progress := false
 		for v, vi := range vars {
@@ -352,12 +384,26 @@ func decideSite(p *core.Program, info *types.Info, fd *ast.FuncDecl, fobj *types
 			for i, vi := range vlist {
 				valOf[vi.obj] = vv[i]
 			}
-			env := astx.Env{
+			var env astx.Env
+			envSelf := func() astx.Env { return env }
+			env = astx.Env{
 				Int: func(e ast.Expr) (int64, bool) {
 					e = astx.Unparen(e)
 					if id, ok := e.(*ast.Ident); ok {
 						if v, ok := valOf[astx.ObjOf(info, id)]; ok {
 							return v, true
+						}
+						if def, ok := defOf[astx.ObjOf(info, id)]; ok {
+							if v, err := astx.EvalInt(info, def, envSelf(), nil); err == nil {
+								return v, true
+							}
+						}
+					}
+					if call, ok := e.(*ast.CallExpr); ok {
+						if cv, ok := callVars[astx.CanonKey(info, call)]; ok {
+							if v, ok := valOf[cv]; ok {
+								return v, true
+							}
 						}
 					}
 					if call, ok := e.(*ast.CallExpr); ok && astx.IsBuiltin(info, call, "len") && len(call.Args) == 1 {
@@ -677,4 +723,19 @@ func madeWithLenOf(info *types.Info, fd *ast.FuncDecl, base ast.Expr) string {
 		return other
 	}
 	return ""
+}
+
+// isLenArith: an expression built from len(x), constants, + and -.
+func isLenArith(info *types.Info, e ast.Expr) bool {
+	e = astx.StripConv(info, astx.Unparen(e))
+	if tv, ok := info.Types[e]; ok && tv.Value != nil {
+		return true
+	}
+	switch x := e.(type) {
+	case *ast.BinaryExpr:
+		return (x.Op == token.ADD || x.Op == token.SUB) && isLenArith(info, x.X) && isLenArith(info, x.Y)
+	case *ast.CallExpr:
+		return astx.IsBuiltin(info, x, "len") && len(x.Args) == 1
+	}
+	return false
 }
